@@ -19,7 +19,9 @@ func init() {
 			"(R2) every request kind has a consumer, each redraw request reaches its printer (prompt, list, header, info, preview, labels, full redraw) and printAll repaints all four regions; " +
 			"(R3) every pass of the render loop that does not exit ends with flush(); " +
 			"(R4) the row cache is reset whenever the geometry is recomputed, before anything is printed, and every erasure of the screen is followed by a full redraw or a request for one; " +
-			"(R5) the marker of a row comes from membership of that row's own item in the selection, and the pointer from comparing the same list index that fetched the item with cy.",
+			"(R5) the marker of a row comes from membership of that row's own item in the selection, and the pointer from comparing the same list index that fetched the item with cy; " +
+			"(R6) every row painted in the list window is recorded in the row cache (item record via postTask, or marked other/empty); " +
+			"(R7) per-index state (selection, cached heights) is dropped when a reload reassigns the indices.",
 		notDecided: "what is drawn: layout arithmetic of resizeWindows, truncation/ellipsis/width of printHighlighted, wrap and multi-line bookkeeping (prevLines width), cursor tracking of the light renderer; the three independently seeded C15 changes are all of that kind and are not detected",
 	})
 }
@@ -29,6 +31,8 @@ func runC15(c *Ctx, r *Report) {
 	c15r2(c, r)
 	c15r4(c, r)
 	c15r5(c, r)
+	c15r6(c, r)
+	c15r7(c, r)
 }
 
 // loadOfField: v is *(&base.F) — returns F and base.
@@ -656,4 +660,179 @@ func c15r5(c *Ctx, r *Report) {
 		r.check(i1 != nil && i2 != nil && i1 == i2, "fzf.printList:pointer on the fetched row", in.Pos(), pl, "item = merger.Get(i+offset), current = (i == cy-offset) with the same i", "the pointer test and the fetched item use different indices or fields")
 	})
 	r.floor("printItem calls in printList", nCalls, 1)
+}
+
+// c15r6: every painted row of the list window is recorded in the row cache.
+func c15r6(c *Ctx, r *Report) {
+	l := c.L
+	r.rule("C15-R6", "P (must-pass-through)", "P1",
+		"printHighlighted, for every line it paints, either hands the row to the caller's postTask (which records the item row) or marks the row as `other`; renderEmptyLine and renderGapLine always mark the row they paint",
+		"a row painted with a header / prompt / gap keeps its old item record: when the item returns to that row it is deemed unchanged and the other text stays on screen")
+	ph := l.Fn("fzf", "(*Terminal).printHighlighted")
+	mo := l.Fn("fzf", "(*Terminal).markOtherLine")
+	me := l.Fn("fzf", "(*Terminal).markEmptyLine")
+	if ph == nil || mo == nil || me == nil {
+		r.unest("anchors", token.NoPos, nil, "anchors printHighlighted / markOtherLine / markEmptyLine", "cannot resolve")
+		return
+	}
+	// the func-typed parameter that is called with the painted line: identified as the parameter compared with nil and called
+	var post *ssa.Parameter
+	for _, p := range ph.Params {
+		if _, ok := p.Type().Underlying().(*types.Signature); !ok {
+			continue
+		}
+		called, tested := false, false
+		if p.Referrers() != nil {
+			for _, ref := range *p.Referrers() {
+				switch x := ref.(type) {
+				case *ssa.Call:
+					if x.Call.Value == ssa.Value(p) && len(x.Call.Args) == 4 {
+						called = true
+					}
+				case *ssa.BinOp:
+					tested = true
+				}
+			}
+		}
+		if called && tested {
+			post = p
+		}
+	}
+	if post == nil {
+		r.unest("fzf.printHighlighted:postTask", ph.Pos(), ph, "the optional per-line callback parameter", "not found")
+		return
+	}
+	isMark := func(in ssa.Instruction) bool {
+		call, ok := in.(*ssa.Call)
+		if !ok {
+			return false
+		}
+		if call.Call.Value == ssa.Value(post) {
+			return true
+		}
+		return callIs(call.Common(), mo) || callIs(call.Common(), me)
+	}
+	nIf := 0
+	eachInstr(ph, func(in ssa.Instruction) {
+		iff, ok := in.(*ssa.If)
+		if !ok {
+			return
+		}
+		b, ok := iff.Cond.(*ssa.BinOp)
+		if !ok || (b.X != ssa.Value(post) && b.Y != ssa.Value(post)) {
+			return
+		}
+		// only the test that guards the call
+		guards := false
+		for _, s := range iff.Block().Succs {
+			for _, i2 := range s.Instrs {
+				if call, ok := i2.(*ssa.Call); ok && call.Call.Value == ssa.Value(post) {
+					guards = true
+				}
+			}
+		}
+		if !guards {
+			return
+		}
+		nIf++
+		ib := iff.Block()
+		bad := pathAvoiding(in, func(i2 ssa.Instruction) bool {
+			if isReturn(i2) {
+				return true
+			}
+			bb := i2.Block()
+			return bb != ib && bb.Dominates(ib) && i2 == bb.Instrs[0]
+		}, isMark, nil)
+		if bad != nil {
+			r.bad("fzf.printHighlighted:painted line recorded", iff.Pos(), ph, "postTask(line, ..) or markOtherLine(line) on every path", "a painted line is neither handed to postTask nor marked: path to "+l.pos(bad.Pos()))
+		} else {
+			r.ok("fzf.printHighlighted:painted line recorded", iff.Pos(), ph, "each painted line reaches postTask or markOtherLine before the next one")
+		}
+	})
+	r.floor("postTask tests in printHighlighted", nIf, 1)
+	for _, name := range []string{"renderEmptyLine", "renderGapLine"} {
+		fn := l.Fn("fzf", "(*Terminal)."+name)
+		if fn == nil {
+			r.unest("fzf."+name, token.NoPos, nil, "anchor "+name, "cannot resolve")
+			continue
+		}
+		bad := pathAvoiding(fn.Blocks[0].Instrs[0], isReturn, func(in ssa.Instruction) bool {
+			call, ok := in.(*ssa.Call)
+			return ok && (callIs(call.Common(), mo) || callIs(call.Common(), me))
+		}, nil)
+		r.check(bad == nil, "fzf."+name+":marks the row", fn.Pos(), fn, name+" marks the row on every path", name+" can return without marking the row it painted")
+	}
+}
+
+// c15r7: per-index caches are dropped when indices are reassigned (reload).
+func c15r7(c *Ctx, r *Report) {
+	l := c.L
+	r.rule("C15-R7", "E (field census by type) + A", "P1",
+		"every field of Terminal that is a map keyed by the item index type (the result type of Item.Index) is replaced by a fresh map in UpdateList on the path where the new revision is not compatible with the old one (a reload restarts the indices)",
+		"state recorded for item #k of the old list (selection mark, cached height) is applied to item #k of the new list: marker on unselected lines, rows of wrong height, current line off screen")
+	ul := l.Fn("fzf", "(*Terminal).UpdateList")
+	tTerm := l.Named("fzf", "Terminal")
+	idx := l.Fn("fzf", "(*Item).Index")
+	compat := l.Fn("fzf", "revision.compatible")
+	if ul == nil || tTerm == nil || idx == nil || compat == nil {
+		r.unest("anchors", token.NoPos, nil, "anchors UpdateList / Terminal / Item.Index / revision.compatible", "cannot resolve")
+		return
+	}
+	keyT := idx.Signature.Results().At(0).Type()
+	st := tTerm.Underlying().(*types.Struct)
+	var fields []*types.Var
+	for i := 0; i < st.NumFields(); i++ {
+		if m, ok := st.Field(i).Type().Underlying().(*types.Map); ok && types.Identical(m.Key(), keyT) {
+			fields = append(fields, st.Field(i))
+		}
+	}
+	r.floor("index-keyed maps in Terminal", len(fields), 2)
+	// fresh-map stores, directly or through a method that does nothing else conditional
+	freshIn := func(fn *ssa.Function, f *types.Var) []ssa.Instruction {
+		var out []ssa.Instruction
+		eachInstr(fn, func(in ssa.Instruction) {
+			if s, ok := in.(*ssa.Store); ok {
+				if fld, _ := fieldOf(s.Addr); fld == f {
+					if _, ok := s.Val.(*ssa.MakeMap); ok {
+						out = append(out, in)
+					}
+				}
+			}
+		})
+		return out
+	}
+	pc := pathConds(ul)
+	underReload := func(b *ssa.BasicBlock) bool {
+		ds := pc.At(b)
+		if len(ds) == 0 {
+			return false
+		}
+		for _, dj := range ds {
+			if !hasLit(dj, func(a ssa.Value, v bool) bool {
+				call, ok := a.(*ssa.Call)
+				return ok && !v && callIs(call.Common(), compat)
+			}) {
+				return false
+			}
+		}
+		return true
+	}
+	for _, f := range fields {
+		ok := false
+		for _, in := range freshIn(ul, f) {
+			if underReload(in.Block()) {
+				ok = true
+			}
+		}
+		eachInstr(ul, func(in ssa.Instruction) {
+			call, isCall := in.(*ssa.Call)
+			if !isCall || !underReload(in.Block()) {
+				return
+			}
+			if callee := call.Common().StaticCallee(); callee != nil && len(callee.Blocks) == 1 && len(freshIn(callee, f)) > 0 {
+				ok = true
+			}
+		})
+		r.check(ok, "fzf.UpdateList:reload drops "+f.Name(), ul.Pos(), ul, "t."+f.Name()+" is replaced by a fresh map when the list was reloaded", "t."+f.Name()+" survives a reload although item indices restart")
+	}
 }
